@@ -1,0 +1,59 @@
+//go:build verif
+
+// Contracts for the G2 point decoders of this curve, whose coordinates live in an extension of the base field
+// (comment-only; installed by /verif/gcv gen-contracts). Layer "ring fp.Element": the 4 (raw) / 2
+// (compressed) base-field coordinates are decoded by SetBytesCanonical (proved under C08; opaque here, only the
+// error results are used); the extension-field methods, the subgroup test and the on-curve test are opaque calls
+// captured at the call site. Acceptance-implies-check clauses: a nil error is returned only if every check the
+// format prescribes was made.
+
+package bls12377
+
+//@ func G2Affine.setBytes
+//@ layer ring fp.Element
+//@ option nomerge
+//@ option opaque IsInSubGroup IsOnCurve Legendre Sqrt LexicographicallyLargest Square Mul Add Neg SetZero isZeroed
+//@ option split-post
+//@ ghost canon1 = false
+//@ ghost canon2 = false
+//@ ghost canon3 = false
+//@ ghost canon4 = false
+//@ ghost insub = false
+//@ ghost oncurve = false
+//@ ghost zeroed = false
+//@ ghost legok = false
+//@ ghost rooted = false
+//@ ghost md = 0
+//@ cut after def mData #1
+//@ + ghost md = mData
+//@ cut after call isZeroed #1
+//@ + ghost zeroed = callresult
+//@ cut after call SetBytesCanonical #1
+//@ + ghost canon1 = isnil(callresult)
+//@ cut after call SetBytesCanonical #2
+//@ + ghost canon2 = isnil(callresult)
+//@ cut after call SetBytesCanonical #3
+//@ + ghost canon3 = isnil(callresult)
+//@ cut after call SetBytesCanonical #4
+//@ + ghost canon4 = isnil(callresult)
+//@ cut after call IsInSubGroup #1
+//@ + ghost insub = callresult && same(callarg0, p)
+//@ cut after call IsOnCurve #1
+//@ + ghost oncurve = callresult && same(callarg0, p)
+//@ cut after call Legendre #1
+//@ + ghost legok = callresult != -1 && same(callarg0, &YSquared)
+//@ cut after call Sqrt #1
+//@ + ghost rooted = same(callarg0, &Y) && same(callarg1, &YSquared)
+//@ ensures[short] len(buf) < SizeOfG2AffineCompressed ==> !isnil(result1) && result0 == 0
+//@ ensures[reject-count] !isnil(result1) ==> result0 == 0
+//@ ensures[infinity] isnil(result1) && md == mCompressedInfinity ==> zeroed && result0 == SizeOfG2AffineCompressed
+//@ ensures[valid-mask] isnil(result1) ==> md == mUncompressed || md == mUncompressedInfinity || md == mCompressedSmallest || md == mCompressedLargest || md == mCompressedInfinity
+//@ ensures[short-raw] (md == mUncompressed || md == mUncompressedInfinity) && len(buf) < SizeOfG2AffineUncompressed ==> !isnil(result1) && result0 == 0
+//@ ensures[infinity-raw] isnil(result1) && md == mUncompressedInfinity ==> zeroed && result0 == SizeOfG2AffineUncompressed
+//@ ensures[raw-canonical] isnil(result1) && md == mUncompressed ==> canon1 && canon2 && canon3 && canon4 && result0 == SizeOfG2AffineUncompressed
+//@ ensures[raw-on-curve] isnil(result1) && md == mUncompressed ==> (subGroupCheck && insub) || (!subGroupCheck && oncurve)
+//@ ensures[compressed-canonical] isnil(result1) && (md == mCompressedSmallest || md == mCompressedLargest) ==> canon1 && canon2 && result0 == SizeOfG2AffineCompressed
+//@ ensures[compressed-root] isnil(result1) && (md == mCompressedSmallest || md == mCompressedLargest) ==> legok && rooted
+//@ ensures[compressed-subgroup] isnil(result1) && (md == mCompressedSmallest || md == mCompressedLargest) && subGroupCheck ==> insub
+//@ modifies p
+//@ end
